@@ -64,6 +64,9 @@ func main() {
 		return
 	}
 	var idx, total int64
+	if part == "conc" && os.Getenv("C04_STRESS") == "" {
+		vevid.Fatal("part conc is a schedule stress (not exhaustive) and is not a registered part: set C04_STRESS=1 to run it by hand")
+	}
 	forEachCase(part, f.Thorough(), func(c *Case) bool {
 		idx++
 		total++
@@ -187,6 +190,7 @@ func runCase(rep *vevid.Report, f *vevid.Flags, c *Case) {
 	if lastObs != nil {
 		rep.Count("target_cells_compared", int64(len(lastObs.cells)))
 		rep.Count("target_files_read", int64(lastObs.tgtFiles))
+		rep.Count("versions_held_across_rollup_steps", int64(w.heldVersions))
 		rep.Count("source_first_last_cells_differing_from_written_points", int64(w.firstLast))
 		multi := 0
 		for _, e := range w.m.expected() {
@@ -318,6 +322,10 @@ func check(rep *vevid.Report, c *Case, w *world, obs *observation, prefix, scen,
 	emit("aggregate-wrong", wrong)
 	if len(obs.unknown) > 0 {
 		viol("target-block-foreign", "metricsdata block", fmt.Sprintf("%d: %s", len(obs.unknown), obs.unknown[0]))
+	}
+	if len(w.unstable) > 0 {
+		viol("old-version-bookkeeping-stable", "version.Clone", fmt.Sprintf("%d held versions changed: %s", len(w.unstable), w.unstable[0]))
+		w.unstable = nil
 	}
 	if afterRollup {
 		if len(obs.srcMarks) > 0 {
